@@ -14,6 +14,12 @@ INJECT_RULE = ("sessions of Add/Remove/WatchList (all path spellings, valid and 
                "every answer (return class, event sequence, error sequence, both tables, cookie ring) compared with the "
                "compiled Lean model. distinct = distinct (op kind, answer) pairs")
 
+LIVE_RULE = ("; LIVE stage: the same Watcher construction, but the datagrams are the bytes the harness reads from the REAL "
+             "inotify descriptor after real file-system operations (create, write, truncate, chmod, unlink, mkdir, rename "
+             "within/across/onto/out, hard link, symlink, unlink-while-open, close, recreate, rm -r) with the reader lagging "
+             "1-4 steps behind; after every drain /proc/self/fdinfo is compared with both tables and WatchList (C12 both "
+             "directions) and the kernel-contract monitors K2/K4 run on the recorded stream")
+
 PROPS = {
     "C15": {
         "lean": ["FsnVerif.Props.C15"],
@@ -61,20 +67,42 @@ PROPS = {
         "rule": INJECT_RULE,
         "assumptions": ["K5: rename cookies are non-zero and pairwise distinct within any window of 2^32 renames"],
     },
+    "C04": {
+        "lean": ["FsnVerif.Props.C04"],
+        "lean_support": ["FsnVerif.Proofs.InvLemmas", "FsnVerif.Proofs.ALLemmas", "FsnVerif.Props.C12", "FsnVerif.Model.Inotify"],
+        "stages": [{"name": "inject", "cmd": "inject", "what": "C04", "sessions": True},
+                   {"name": "live", "cmd": "live", "what": "C04", "sessions": True}],
+        "rule": INJECT_RULE + LIVE_RULE,
+        "assumptions": ["path resolution (which inode a path names, and the errors for missing / non-directory / loop / over-long "
+                        "paths) is the kernel's: an unconstrained input of the model, exercised on the real file system",
+                        "K0/K1: inotify_add_watch never answers wd 0; answers the existing wd for an inode that has a mark"],
+    },
+    "C09": {
+        "lean": ["FsnVerif.Props.C09"],
+        "lean_support": ["FsnVerif.Proofs.InvLemmas", "FsnVerif.Props.C12", "FsnVerif.Props.C02", "FsnVerif.Model.Inotify"],
+        "stages": [{"name": "inject", "cmd": "inject", "what": "C09", "sessions": True},
+                   {"name": "live", "cmd": "live", "what": "C09", "sessions": True}],
+        "rule": INJECT_RULE + LIVE_RULE,
+        "assumptions": ["the kernel decides when IN_DELETE_SELF / IN_IGNORED / IN_MOVE_SELF are raised (K2)",
+                        "filepath.Clean is idempotent on stored paths (hypothesis `hclean` of self_gone_ends_watch; validated differentially)"],
+    },
     "C10": {
-        "lean": [],
-        "stages": [{"name": "inject", "cmd": "inject", "what": "C10", "sessions": True}],
-        "rule": INJECT_RULE,
+        "lean": ["FsnVerif.Props.C10"],
+        "lean_support": ["FsnVerif.Proofs.InotifyLemmas", "FsnVerif.Model.Inotify"],
+        "stages": [{"name": "inject", "cmd": "inject", "what": "C10", "sessions": True},
+                   {"name": "live", "cmd": "live", "what": "C10", "sessions": True}],
+        "rule": INJECT_RULE + LIVE_RULE,
+        "assumptions": ["K3: inotify_rm_watch fails only with EINVAL (mark gone) while the descriptor is open",
+                        "read errors of the inotify descriptor (EOF, short read) are the runtime's and are not modelled"],
     },
     "C12": {
-        "lean": [],
-        "stages": [{"name": "inject", "cmd": "inject", "what": "C12", "sessions": True}],
-        "rule": INJECT_RULE,
-    },
-    "C04": {
-        "lean": [],
-        "stages": [{"name": "inject", "cmd": "inject", "what": "C04", "sessions": True}],
-        "rule": INJECT_RULE,
+        "lean": ["FsnVerif.Props.C12"],
+        "lean_support": ["FsnVerif.Proofs.InvLemmas", "FsnVerif.Proofs.ALLemmas", "FsnVerif.Model.Inotify"],
+        "stages": [{"name": "inject", "cmd": "inject", "what": "C12", "sessions": True},
+                   {"name": "live", "cmd": "live", "what": "C12", "sessions": True}],
+        "rule": INJECT_RULE + LIVE_RULE,
+        "assumptions": ["the kernel's own mark list (/proc/self/fdinfo) is ground truth only at run time (live stage, after every quiescent point)",
+                        "K0-K3, K6"],
     },
     "C16": {
         "lean": ["FsnVerif.Props.C16"],
